@@ -815,9 +815,20 @@ impl<'a> Binder<'a> {
                     .transpose()?
                     .map(Box::new);
 
+                // The type of the CASE is the type of its branches: NULL branches say nothing, numeric
+                // branches widen each other, otherwise the first typed branch decides.
                 let result_type = when_then
-                    .first()
+                    .iter()
                     .map(|(_, t)| t.data_type())
+                    .chain(else_expr.iter().map(|e| e.data_type()))
+                    .filter(|k| *k != DataTypeKind::Null)
+                    .reduce(|a, b| {
+                        if a.is_numeric() && b.is_numeric() {
+                            self.wider_numeric(a, b)
+                        } else {
+                            a
+                        }
+                    })
                     .unwrap_or(DataTypeKind::Null);
 
                 Ok(BoundExpression::Case {
